@@ -301,7 +301,7 @@ _PURE = {"int": int, "float": float, "str": str, "repr": repr, "len": len, "byte
          "type": type, "dict": dict, "divmod": divmod, "enumerate": enumerate, "zip": zip, "reversed": reversed, "slice": slice, "format": format,
          "any": any, "all": all, "round": round, "hex": hex, "iter": iter, "next": next, "frozenset": frozenset}
 _STRUCT = {"struct.pack": struct.pack, "pack": struct.pack, "struct.unpack": struct.unpack, "unpack": struct.unpack,
-           "struct.calcsize": struct.calcsize, "calcsize": struct.calcsize}
+           "struct.calcsize": struct.calcsize, "calcsize": struct.calcsize, "struct.Struct": struct.Struct, "Struct": struct.Struct}
 _NOOPS = {"log.msg", "log.err", "warnings.warn", "_log.failure", "_log.info", "_log.debug", "_log.warn", "_log.error", "log.info"}
 _OBJ_METHODS = {  # methods that may be called on plain Python values, by receiver type
     (str, bytes, bytearray): {"encode", "decode", "lower", "upper", "strip", "lstrip", "rstrip", "join", "startswith", "endswith", "find", "split",
@@ -311,10 +311,12 @@ _OBJ_METHODS = {  # methods that may be called on plain Python values, by receiv
     (set,): {"add", "discard", "copy", "remove", "update"},
     (tuple,): {"index", "count"},
     (io.BytesIO,): {"write", "read", "tell", "seek", "getvalue"},
+    (struct.Struct,): {"pack", "unpack", "unpack_from", "iter_unpack"},
     (datetime.datetime,): {"utcoffset", "replace", "isoformat", "timetuple", "utctimetuple"},
     (datetime.timedelta,): {"total_seconds"},
 }
 _OBJ_ATTRS = {
+    (struct.Struct,): {"size", "format"},
     (datetime.datetime,): {"year", "month", "day", "hour", "minute", "second", "microsecond", "tzinfo"},
     (datetime.timedelta,): {"days", "seconds", "microseconds"},
 }
@@ -404,10 +406,18 @@ class MiniEval:
         if self._imports is None:
             self._imports = set()
             for m in self.mods:
-                for st in ast.walk(m.tree):
-                    if isinstance(st, (ast.Import, ast.ImportFrom)):
-                        for a in st.names:
-                            self._imports.add((a.asname or a.name).split(".")[0])
+                names = getattr(m, "_g_imports", None)      # cached on the module object (same lifetime as its tree)
+                if names is None:
+                    names = set()
+                    for st in ast.walk(m.tree):
+                        if isinstance(st, (ast.Import, ast.ImportFrom)):
+                            for a in st.names:
+                                names.add((a.asname or a.name).split(".")[0])
+                    try:
+                        m._g_imports = names
+                    except AttributeError:
+                        pass
+                self._imports |= names
         return name in self._imports
 
     def bases(self, cls: ast.ClassDef) -> List[ast.ClassDef]:
